@@ -57,6 +57,7 @@ func genC12(rng *rand.Rand, tier string) *core.Plan {
 	p.Cfg["multi"] = rng.Intn(2) // statements may select two columns
 	p.Cfg["failleaf"] = rng.Intn(2)
 	p.Cfg["fx"] = rng.Intn(2) // histograms; rate, arithmetic, quantile, functions on last / first fields
+	p.Cfg["bigbatch"] = rng.Intn(2) // batches of up to 48 rows
 	p.Cfg["nodes"] = rng.Intn(2) // the shards also live on 2..k storage nodes with metadata (ids) of their own
 	return p
 }
